@@ -153,12 +153,12 @@ def extract(crate_dir, crate_name, config, feature_args):
 
 
 def _gc(crate_name, config, keep):
-    """keep at most 12 fact directories per (crate, config)"""
+    """keep at most 40 fact directories per (crate, config)"""
     base = os.path.join(CACHE, "facts")
     pre = "%s-%s-" % (crate_name, config)
     ds = [os.path.join(base, d) for d in os.listdir(base) if d.startswith(pre)]
     ds.sort(key=lambda d: os.path.getmtime(d), reverse=True)
-    for d in ds[12:]:
+    for d in ds[40:]:
         if d != keep:
             shutil.rmtree(d, ignore_errors=True)
 
